@@ -43,7 +43,9 @@
      operations itself ([BoolInterp::cube]: t, then for v = n-1 .. 0: var(v)? resp. not_var(v)?, and(acc)?):
      every step of that construction goes through the bounded model as well; the first failing step is the
      outcome, what the earlier steps created stays stored.  A substitution's replacement functions are the
-     handles 1000000 + 100 * sid + i of the snapshot (the substitution object owns clones). *)
+     handles 1000000 + 100 * sid + i of the snapshot (the substitution object owns clones).
+     PICKDD / PICKSET (bdd, bcdd, zbdd): pick_cube_dd with the harness's choice function (bit [level] of the
+     mask) resp. pick_cube_dd_set on the literal cube the harness builds first (coq/Mgr/OomPick.v). *)
 open Conv
 
 (* ---- trace parsing (self-contained copies of the few helpers of ocaml/dd_types.ml that this
@@ -490,6 +492,12 @@ let () =
                     stat "chk_zvcall_ok" 1;
                     if not (Model.zvcall_ok_b s k) then raise (Out (3, None, None));
                     of_gres_ref (Model.zv_run_nc ncap false s k) in
+                  let pkind = (match kname with "bcdd" -> Model.PBcdd | "zbdd" -> Model.PZbdd | _ -> Model.PBdd) in
+                  let pick_run (s : Model.snap) (k : Model.pcall) (run : unit -> (unit, Model.edge * Model.step list) Model.gres0) : outcome =
+                    stat "chk_pcall_ok" 1;
+                    if not (Model.pcall_ok_b pkind s k) then raise (Out (3, None, None));
+                    let r = run () in
+                    (gcode r, Model.gres_snap r, (match Model.gres_val r with Some (e, _) -> Some e | None -> None)) in
                   let bcdd_cube pos neg =
                     let top = match Model.cget_terminal s0 true with
                       | Some t -> t | None -> raise (Out (2, None, None)) in
@@ -584,6 +592,25 @@ let () =
                              let s1, vars = zbdd_cube (int_of_string pos) (int_of_string neg) in
                              zv_run s1 (Model.ZVRestrict (f, vars.Model.eref)))
                        | None -> None)
+                    | ("bdd" | "bcdd" | "zbdd"), [ "PICKDD"; dst; a; cm ] ->
+                      (* pick_cube_dd with the harness's choice function: bit [level] of the mask *)
+                      (match hedge a with
+                       | Some e ->
+                         let cm = int_of_string cm in
+                         let e = if kname = "bcdd" then e else untagged e.Model.eref in
+                         guard dst (fun () ->
+                             pick_run s0 (Model.PKDd e)
+                               (fun () -> Model.pick_dd_nc pkind ncap s0 (fun l -> (cm lsr (int_of_nat l)) land 1 = 1) e))
+                       | None -> None)
+                    | ("bdd" | "bcdd" | "zbdd"), [ "PICKSET"; dst; a; pos; neg ] ->
+                      (match hedge a with
+                       | Some e ->
+                         let e = if kname = "bcdd" then e else untagged e.Model.eref in
+                         guard dst (fun () ->
+                             let mk = (match kname with "bdd" -> bdd_cube | "bcdd" -> bcdd_cube | _ -> zbdd_cube) in
+                             let s1, lits = mk (int_of_string pos) (int_of_string neg) in
+                             pick_run s1 (Model.PKSet (e, lits)) (fun () -> Model.pick_dd_set_nc pkind ncap s1 e lits))
+                       | None -> None)
                     | "tdd", [ "T3NOT"; dst; a ] ->
                       (match href a with
                        | Some f -> Some (slot_of dst, of_gres_ref (Model.trun_nc ncap s0 (Model.TCNot f)))
@@ -601,6 +628,7 @@ let () =
                     | _ -> None in
                   let is_z = (match run_z with Some _ -> true | None -> false) in
                   if is_z then stat ("predictions_z_" ^ kname) 1;
+                  if is_z && (match toks with ("PICKDD" | "PICKSET") :: _ -> true | _ -> false) then stat "predictions_pick" 1;
                   let run =
                     if is_z then (match run_z with Some (d, o) -> Some (d, `O o) | None -> None)
                     else if kname <> "bdd" then (match run_other with Some (d, o) -> Some (d, `O o) | None -> None)
@@ -632,7 +660,7 @@ let () =
                       | `O o -> o in
                     if kname <> "bdd" then stat ("predictions_" ^ kname) 1;
                     if code = 3 then
-                      fail i "corr" (Printf.sprintf "%s: the operands do not satisfy the hypothesis of the theorems (cqcall_ok_b / zvcall_ok_b false)" ops)
+                      fail i "corr" (Printf.sprintf "%s: the operands do not satisfy the hypothesis of the theorems (cqcall_ok_b / zvcall_ok_b / pcall_ok_b false)" ops)
                     else if code = 2 then fail i "corr" (Printf.sprintf "%s: the bounded model is stuck (model hypotheses violated)" ops)
                     else (
                       stat (if code = 1 then "model_oom" else "model_ok") 1;
